@@ -3,11 +3,15 @@
 package internal
 
 import (
+	"context"
 	"fmt"
 	"math"
 	"reflect"
+	"runtime"
 	"strconv"
 	"strings"
+	"sync"
+	"sync/atomic"
 	"testing"
 
 	"github.com/Yiling-J/theine-go/internal/verifkit"
@@ -293,5 +297,105 @@ func TestVerifC18(t *testing.T) {
 			"the cache is large enough never to evict; keys are key-tagged so aliasing is distinguishable from staleness",
 			"quick tier: default toolchain (xxh3 over key memory); thorough tier additionally under go1.26.8 (maphash.Comparable)",
 		},
+	})
+}
+
+// C18 (loading / hybrid tier): different keys whose hashes collide must not observe each
+// other's values through the per-shard load deduplication either. The StringKey function
+// maps many keys to few strings, so distinct keys share a hash; cold keys are loaded by
+// several goroutines at once.
+
+type c18lCase struct {
+	Buckets    int  `json:"buckets"` // the StringKey function maps a key to key % Buckets (1 = every hash collides)
+	Keys       int  `json:"keys"`
+	Goroutines int  `json:"goroutines"`
+	Rounds     int  `json:"rounds"`
+	Hybrid     bool `json:"hybrid"`
+}
+
+func genC18l(t *rapid.T) c18lCase {
+	return c18lCase{
+		Buckets:    rapid.SampledFrom([]int{1, 1, 2, 5}).Draw(t, "buckets"),
+		Keys:       rapid.IntRange(2, 16).Draw(t, "keys"),
+		Goroutines: rapid.IntRange(2, 12).Draw(t, "goroutines"),
+		Rounds:     rapid.IntRange(1, 6).Draw(t, "rounds"),
+		Hybrid:     rapid.Bool().Draw(t, "hybrid"),
+	}
+}
+
+func execC18l(c c18lCase, x *verifkit.Ctx) *verifkit.Failure {
+	if VerifNoMaintenance.Load() {
+		panic("needs real maintenance")
+	}
+	vkRealTime()
+	kfunc := func(k int64) string { return "b" + strconv.FormatInt(k%int64(c.Buckets), 10) }
+	tag := func(k int64) int64 { return k<<20 | 0xabc }
+	var bad atomic.Pointer[verifkit.Failure]
+	run := func(get func(k int64) (int64, bool), reset func(k int64)) {
+		for r := 0; r < c.Rounds; r++ {
+			for k := 0; k < c.Keys; k++ {
+				reset(int64(k))
+			}
+			var wg sync.WaitGroup
+			start := make(chan struct{})
+			for g := 0; g < c.Goroutines; g++ {
+				g := g
+				wg.Add(1)
+				go func() {
+					defer wg.Done()
+					<-start
+					for i := 0; i < c.Keys; i++ {
+						k := int64((g + i) % c.Keys)
+						if v, ok := get(k); ok && v != tag(k) {
+							bad.CompareAndSwap(nil, verifkit.Failf("key/aliasing-through-load", "Get(key %d) returned %#x, the value of key %d (StringKey maps both to %q; %d goroutines loading cold keys at once; hybrid=%v)", k, v, v>>20, kfunc(k), c.Goroutines, c.Hybrid))
+						}
+					}
+				}()
+			}
+			close(start)
+			wg.Wait()
+		}
+	}
+	if c.Hybrid {
+		sec := NewSimpleMapSecondary[int64, int64]()
+		s := NewStore[int64, int64](&StoreOptions[int64, int64]{MaxSize: 1000, StringKeyFunc: kfunc, SecondaryCache: sec, Workers: 2, Probability: 1})
+		defer s.Close()
+		run(func(k int64) (int64, bool) {
+			v, ok, _ := s.GetWithSecodary(k)
+			return v, ok
+		}, func(k int64) {
+			// the key lives in the secondary tier only: every Get goes through the promotion path
+			_ = s.DeleteWithSecondary(k)
+			_ = sec.Set(k, tag(k), 1, 0)
+		})
+	} else {
+		s := NewStore[int64, int64](&StoreOptions[int64, int64]{MaxSize: 1000, StringKeyFunc: kfunc})
+		defer s.Close()
+		ls := NewLoadingStore(s)
+		ls.Loader(func(ctx context.Context, k int64) (Loaded[int64], error) {
+			runtime.Gosched()
+			return Loaded[int64]{Value: tag(k), Cost: 1}, nil
+		})
+		run(func(k int64) (int64, bool) {
+			v, err := ls.Get(context.Background(), k)
+			return v, err == nil
+		}, func(k int64) { s.Delete(k) })
+	}
+	if f := bad.Load(); f != nil {
+		return f
+	}
+	x.ClassIf(c.Hybrid, "hybrid")
+	x.ClassIf(c.Buckets == 1, "every-hash-collides")
+	if c.Keys > c.Buckets && c.Goroutines >= 2 {
+		x.NonTrivial()
+	}
+	return nil
+}
+
+func TestVerifC18Loading(t *testing.T) {
+	verifkit.Run(t, verifkit.Spec[c18lCase]{
+		ID: "C18", Gen: genC18l, Exec: execC18l, Nondet: true,
+		Rule:        "C18 (loading/hybrid tier): rapid draws a StringKey function that maps keys to 1, 2 or 5 strings (so distinct keys share a hash), 2..16 keys, 2..12 goroutines and 1..6 rounds; in each round every key is made cold (deleted; hybrid: placed in the secondary tier only) and all goroutines Get all keys at once through the loading / hybrid path; every returned value must carry the tag of the key asked for; non-trivial = more keys than hash values and at least two goroutines",
+		Assumptions: []string{"real goroutines; which callers meet inside the load deduplication is up to the Go scheduler"},
 	})
 }
